@@ -151,3 +151,47 @@ def held_states(m, acquire_suffix, release_input):
 def opened_states(m, suffix):
     """states entered by rows whose outputs call something ending in suffix"""
     return {r.enter for r in m.rows.values() if any(c.endswith(suffix) for c in row_call_names(m, r))}
+
+
+def calls_application(m, name, app_attrs=("_protocol",), depth=4):
+    """the Call nodes of output `name` (followed through self.<method>()) that run application-supplied code:
+    (a) a direct call of a stored callable - `self.<attr>(..)` where <attr> is no method, output or input of the class (a callback the
+        application handed in, e.g. the status callback);
+    (b) any call whose callee expression mentions `self.<a>` for a in app_attrs (the application's protocol object, also when adapted:
+        IHalfCloseableProtocol(self._protocol).writeConnectionLost())"""
+    defs = set(m.methods) | set(m.outputs) | set(m.inputs) | set(m.states)
+    out = []
+    for c in output_calls(m, name, depth):
+        f = c.func
+        if isinstance(f, ast.Attribute) and isinstance(f.value, ast.Name) and f.value.id == "self" and f.attr not in defs:
+            out.append(c)
+            continue
+        if any(isinstance(x, ast.Attribute) and isinstance(x.value, ast.Name) and x.value.id == "self" and x.attr in app_attrs
+               for x in ast.walk(f)):
+            out.append(c)
+    return out
+
+
+def application_outputs_last(rep, rule, m, why, app_attrs=("_protocol",), min_rows=1):
+    """Automat enters the new state BEFORE it runs a row's outputs, and an exception from one output skips the rest for good (the input
+    cannot be repeated: the state has moved on).  So in every row the outputs that run application-supplied code - the only ones that
+    can raise for reasons outside this package - come after every output that does the machine's own work (telling the peer, the
+    manager, the timer)."""
+    n = 0
+    for row in m.rows.values():
+        flags = [bool(calls_application(m, o, app_attrs)) for o in row.outputs]
+        if True not in flags:
+            continue
+        n += 1
+        first = flags.index(True)
+        late = [o for o, f in zip(row.outputs[first:], flags[first:]) if not f]
+        rep.check(rule, "%s %s.%s: the outputs that call the application (%s) run after the machine's own (%s)"
+                  % (m.name, row.src, row.inp, ", ".join(o for o, f in zip(row.outputs, flags) if f),
+                     ", ".join(o for o, f in zip(row.outputs, flags) if not f) or "-"),
+                  not late, row.site, key="%s:%s[%s].%s:application-last" % (rule, m.name, row.src, row.inp),
+                  what="%s %s.%s runs %s (application code) before %s: if the application's callback raises, the state has already "
+                       "changed and %s never happens - %s" % (m.name, row.src, row.inp, row.outputs[first], ", ".join(late), ", ".join(late), why))
+    if n < min_rows:
+        from .srcmodel import AnalysisError
+        raise AnalysisError("%s: fewer rows with application-calling outputs than expected in %s (%d < %d)" % (rule, m.name, n, min_rows))
+    return n
